@@ -1000,8 +1000,10 @@ void BW_MidiSequencer::buildTimeLine(const std::vector<MidiEvent> &tempos,
     m_fullSongTimeLength += m_postSongWaitDelay;
     // Set begin of the music
     m_trackBeginPosition = m_currentPosition;
+    m_trackBeginTempo = m_tempo;
     // Initial loop position will begin at begin of track until passing of the loop point
     m_loopBeginPosition  = m_currentPosition;
+    m_loopBeginTempo = m_tempo;
     // Set lowest level of the loop stack
     m_loop.stackLevel = -1;
 
@@ -1216,6 +1218,7 @@ bool BW_MidiSequencer::processEvents(bool isSeek)
     m_loop.caughtEnd = false;
     const size_t        trackCount = m_currentPosition.track.size();
     const Position      rowBeginPosition(m_currentPosition);
+    const fraction<uint64_t> rowBeginTempo = m_tempo;
     bool     doLoopJump = false;
     unsigned caughLoopStart = 0;
     unsigned caughLoopStackStart = 0;
@@ -1335,6 +1338,9 @@ bool BW_MidiSequencer::processEvents(bool isSeek)
 #endif
         m_currentPosition.wait += t.value();
 
+    if(caughLoopStart > 0)
+        m_loopBeginTempo = rowBeginTempo; // The tempo belongs to the position: a jump back has to restore it too
+
     if(caughLoopStart > 0 && m_loopBeginPosition.absTimePosition <= 0.0)
         m_loopBeginPosition = rowBeginPosition;
 
@@ -1441,11 +1447,13 @@ bool BW_MidiSequencer::processEvents(bool isSeek)
         if(m_loop.temporaryBroken)
         {
             m_currentPosition = m_trackBeginPosition;
+            m_tempo = m_trackBeginTempo;
             m_loop.temporaryBroken = false;
         }
         else if(m_loop.loopsCount < 0 || m_loop.loopsLeft >= 1)
         {
             m_currentPosition = m_loopBeginPosition;
+            m_tempo = m_loopBeginTempo;
             if(m_loop.loopsCount >= 1)
                 m_loop.loopsLeft--;
         }
@@ -2262,6 +2270,7 @@ double BW_MidiSequencer::getLoopEnd()
 void BW_MidiSequencer::rewind()
 {
     m_currentPosition   = m_trackBeginPosition;
+    m_tempo             = m_trackBeginTempo;
     m_atEnd             = false;
 
     m_loop.loopsCount = m_loopCount;
